@@ -101,3 +101,72 @@ Definition g_del : cfg := {| lis_e := [(SUpdate, ADel CA); (SUpdated, ALog)]; li
 Definition g_leak : cfg := {| lis_e := [(SUpdate, ASet CB (VStr [121%N]))]; lis_l := [] |}.
 Definition ops_leak : list op :=
   [OCreate KEager [(CA, VInt 1)]; OAssign KEager 1 CA (VStr [120%N]); OSet KEager 1 [(CC, VInt 4)]].
+
+(* ------------------------------------------------------------------ updates of chain instances, positional form *)
+Lemma chain_hist_plain_read script ops r id :
+  In r (chain_steps (effective script) cinit ops) -> uplain (ur_op r) = true -> ur_out r = CDone id ->
+  (forall s, s = SUpdate \/ s = SUpdated -> forall a,
+     recv_of lvl_eqb s a (ur_tr r)
+     = if lvl_eqb a (uop_lvl (ur_op r)) then map fst (sel s (ltab (effective script) a)) else [])
+  /\ (forall tr1 w tr2, ur_tr r = tr1 ++ EWrite w :: tr2 -> forall k i kw li, ~ In (ESig SUpdate k i kw li) tr2)
+  /\ (forall tr1 k i kw li tr2, ur_tr r = tr1 ++ ESig SUpdated k i kw li :: tr2 -> forall w, ~ In (EWrite w) tr2).
+Proof.
+  intros Hin Hp Ho. destruct (chain_hist_plain _ _ _ _ Hin Hp Ho) as [H1 H2].
+  split; [exact H1|]. apply ordered_around_sound. exact H2.
+Qed.
+
+Lemma chain_hist_created_read script ops r l kw id :
+  In r (chain_steps (effective script) cinit ops) -> ur_op r = UCreate l kw -> ur_out r = CDone id ->
+  (forall tr1 k i kw' li tr2, ur_tr r = tr1 ++ ESig SCreated k i kw' li :: tr2 ->
+     forall k' id' row, ~ In (EWrite (WInsert k' id' row)) tr2)
+  /\ inserts_of (ur_tr r) = map (fun a => (a, id)) (rev (lineage l))
+  /\ (forall a, In a (lineage l) -> has_row id (ctable (ur_post r) a) = true).
+Proof.
+  intros Hin Hop Ho. destruct (chain_hist_created_after _ _ _ _ _ _ Hin Hop Ho) as [H1 [H2 H3]].
+  split; [apply cai_sound; exact H1|split; assumption].
+Qed.
+
+(* witness: a leaf class with one RowUpdateSignal and one RowUpdatedSignal
+   receiver of its own.  set() of its own column delivers no before-event at
+   all; an assignment of an inherited column delivers no after-event to it. *)
+Definition w_script : list reg :=
+  [RDef LA; RDef LB; RDef LC; RListen LC 0 (SUpdate, ALog); RListen LC 1 (SUpdated, ALog)].
+Definition w_ops : list cop :=
+  [UCreate LC [(CA, VInt 1)]; USet LC 1 [(CC, VInt 9)]; UAssign LC 1 CA (VInt 5)].
+
+Lemma chain_update_refuted :
+  exists script ops r id s i x,
+    In r (chain_steps (effective script) cinit ops) /\ is_uupdate (ur_op r) = true /\ ur_out r = CDone id
+    /\ (s = SUpdate \/ s = SUpdated)
+    /\ In (i, (s, x)) (ltab (effective script) (uop_lvl (ur_op r)))
+    /\ recv_of lvl_eqb s (uop_lvl (ur_op r)) (ur_tr r) = [].
+Proof.
+  exists w_script, w_ops.
+  exists (nth 1 (chain_steps (effective w_script) cinit w_ops)
+              {| ur_pre := cinit; ur_op := UCreate LA []; ur_out := CBadInput; ur_tr := []; ur_post := cinit |}).
+  exists 1, SUpdate, 0, ALog. vm_compute. repeat split; auto.
+Qed.
+Lemma chain_update_refuted_after :
+  exists script ops r id i x,
+    In r (chain_steps (effective script) cinit ops) /\ is_uupdate (ur_op r) = true /\ ur_out r = CDone id
+    /\ In (i, (SUpdated, x)) (ltab (effective script) (uop_lvl (ur_op r)))
+    /\ recv_of lvl_eqb SUpdated (uop_lvl (ur_op r)) (ur_tr r) = [].
+Proof.
+  exists w_script, w_ops.
+  exists (nth 2 (chain_steps (effective w_script) cinit w_ops)
+              {| ur_pre := cinit; ur_op := UCreate LA []; ur_out := CBadInput; ur_tr := []; ur_post := cinit |}).
+  exists 1, 1, ALog. vm_compute. repeat split; auto.
+Qed.
+
+Lemma chain_steps_update script ops r id :
+  In r (chain_steps (effective script) cinit ops) -> is_uupdate (ur_op r) = true -> ur_out r = CDone id ->
+  ur_tr r = uspec (effective script) (ur_op r)
+  /\ ur_post r = uspec_state (ur_op r) (ur_pre r)
+  /\ forall s a, recv_of lvl_eqb s a (ur_tr r) = rounds (uowed (ur_op r) a s) (sel s (ltab (effective script) a)).
+Proof. apply chain_hist_update. Qed.
+
+Lemma chain_steps_creates script ops :
+  map (fun r => (uop_lvl (ur_op r), ur_out r, ur_tr r, ur_post r))
+      (chain_steps (effective script) cinit (map (fun p => UCreate (fst p) (snd p)) ops))
+  = map (fun r => (cr_lvl r, cr_out r, cr_tr r, cr_post r)) (chain_run (effective script) cinit ops).
+Proof. apply chain_hist_creates. Qed.
